@@ -295,12 +295,12 @@ def body_grid(rep, case):
 def subchecks(tier):
     big = tier == "thorough"
     subs = [
-        Sub("dense", lambda rep, case: body(rep, case, "dense"), strategy=strat(True, False), n=60_000 if big else 1500,
+        Sub("dense", lambda rep, case: body(rep, case, "dense"), strategy=strat(True, False), n=60_000 if big else 4000,
             shards=16 if big else 4, shrink_budget=150),
-        Sub("sparse", lambda rep, case: body(rep, case, "sparse"), strategy=strat(False, False), n=40_000 if big else 700,
-            shards=16 if big else 2, shrink_budget=150),
-        Sub("faults", lambda rep, case: body(rep, case, "faults"), strategy=strat(True, True), n=40_000 if big else 800,
-            shards=16 if big else 2, shrink_budget=150),
+        Sub("sparse", lambda rep, case: body(rep, case, "sparse"), strategy=strat(False, False), n=40_000 if big else 1500,
+            shards=16 if big else 4, shrink_budget=150),
+        Sub("faults", lambda rep, case: body(rep, case, "faults"), strategy=strat(True, True), n=40_000 if big else 2400,
+            shards=16 if big else 4, shrink_budget=150),
     ]
     if big:
         subs.append(Sub("grid", body_grid, cases=cases_grid(tier), shards=16, exhaustive=True))
